@@ -23,7 +23,7 @@ RULE = ("(a) exhaustive: rows '|'+w for every w over the five character classes 
 ASSUMPTIONS = ["R6 implements the wording of README 'Table cell escaping' and of the property: cells are the texts between "
                "consecutive unescaped pipes; \\n, \\|, \\\\ are the only escapes; blanks but not line feeds are trimmed",
                "blank = str.isspace() and not LF (the same notion the code under test uses for trimming)"]
-DECIDING = ["rows_line_level", "rows_full_parse", "round_trips", "tables_checked"]
+DECIDING = ["rows_line_level", "rows_full_parse", "round_trips", "tables_checked", "sentinel_cells"]
 
 
 def plan(tier, seed):
@@ -40,6 +40,7 @@ def plan(tier, seed):
     specs += shards("roundtrip_unicode", 4000 if q else 200000, 1000 if q else 10000, seed)
     specs += shards("tables", 3000 if q else 100000, 500 if q else 5000, seed)
     specs += [{"family": "threads", "seed": seed + k, "n": 1, "rounds": 60 if q else 600} for k in range(2 if q else 8)]
+    specs += [{"family": "sentinels", "seed": seed, "n": 1, "part": k, "parts": 4} for k in range(4)]
     return specs
 
 
@@ -312,6 +313,18 @@ def run_shard(spec, M):
                 v = v[:-1]
             M.case(h64("rtu" + v))
             check_roundtrip(v, M, {"kind": "roundtrip", "value": v})
+    elif fam == "sentinels":
+        # characters an implementation might borrow as an internal stand-in while unescaping (controls, the private use area,
+        # non-characters, specials): each one in a cell together with all three escapes must be read back unchanged
+        cps = list(range(0x00, 0x21)) + list(range(0x7f, 0xa1)) + list(range(0xe000, 0xf900)) + list(range(0xfdd0, 0xfdf0)) + \
+            list(range(0xfff0, 0x10000)) + [0x1fffe, 0x1ffff, 0xf0000, 0xffffd, 0x100000, 0x10fffd, 0x2028, 0x2029, 0x200b, 0xfeff]
+        for k, cp in enumerate(cps):
+            if k % spec["parts"] != spec["part"] or cp in (0x0a, 0x0d):
+                continue
+            ch = chr(cp)
+            for v in ("x" + ch + "|" + ch + "\\" + ch + "\n" + ch + "y", "a" + ch + "\\n" + ch + "b"):
+                M.count("sentinel_cells")
+                check_roundtrip(v, M, {"kind": "roundtrip", "value": v})
     elif fam == "threads":
         run_threads(spec, M)
     elif fam == "tables":
